@@ -123,6 +123,7 @@ func checkC17(c *ev.Ctx) {
 	defer func() { c.Set("max_output_as_fraction_of_bound", maxFrac) }()
 	par(len(cases), func(i int) {
 		k := cases[i]
+		noteCase(k.ID)
 		if !want(c, k.ID) {
 			return
 		}
